@@ -49,15 +49,21 @@ theorem step_str (sim : Ind G α → Ind G α → Bool) (p0 ind : Ind G α) {bas
       · rw [length_insert, length_erased _ _ hl]; have := hs.size; omega
       · rw [insert_items]; exact insertAt_ne_nil _ _ _
 
-/-! ### Semantic invariants (under the reading's hypotheses) -/
+/-! ### Semantic invariants (under the reading's hypotheses, split by what each clause needs) -/
+
+/-- The similarity operator is symmetric and does not look at object identity. -/
+structure SimSym (sim : Ind G α → Ind G α → Bool) : Prop where
+  symm : ∀ x y, sim x y = true → sim y x = true
+  same : ∀ x x' y y', same x x' → same y y' → sim x y = sim x' y'
+
+/-- … and reflexive. -/
+structure SimBase (sim : Ind G α → Ind G α → Bool) : Prop extends SimSym sim where
+  refl : ∀ x, sim x x = true
 
 /-- Hypotheses of the reading (DESIGN §6): the similarity operator is reflexive and symmetric, does not look
 at object identity, and similar individuals of the universe `U` carry equal fitness.
 (Transitivity is not needed by any proof.) -/
-structure SimHyp (sim : Ind G α → Ind G α → Bool) (U : List (Ind G α)) : Prop where
-  refl : ∀ x, sim x x = true
-  symm : ∀ x y, sim x y = true → sim y x = true
-  same : ∀ x x' y y', same x x' → same y y' → sim x y = sim x' y'
+structure SimHyp (sim : Ind G α → Ind G α → Bool) (U : List (Ind G α)) : Prop extends SimBase sim where
   fit : ∀ x ∈ U, ∀ y ∈ U, sim x y = true → x.fit = y.fit
 
 theorem same_refl (x : Ind G α) : same x x := ⟨rfl, rfl⟩
@@ -72,33 +78,33 @@ def Room (sim : Ind G α → Ind G α → Bool) (m : Nat) (seen : List (Ind G α
 def Repr (sim : Ind G α → Ind G α → Bool) (h : HoF G α) (x : Ind G α) : Prop :=
   ∃ it ∈ h.items, sim x it = true
 
-structure Sem (sim : Ind G α → Ind G α → Bool) (m : Nat) (seen : List (Ind G α)) (h : HoF G α) : Prop where
+/-- pairwise dissimilar members, and: while room, everything seen is represented -/
+structure SemK (sim : Ind G α → Ind G α → Bool) (m : Nat) (seen : List (Ind G α)) (h : HoF G α) : Prop where
   dissim : Dissim sim h.items
-  best : ∀ x ∈ seen, Repr sim h x ∨
-    (h.items.length = m ∧ ∀ w, h.items.getLast? = some w → x.fit.wvalues ≤ w.fit.wvalues)
   kept : Room sim m seen → ∀ x ∈ seen, Repr sim h x
 
-theorem sem_empty (sim : Ind G α → Ind G α → Bool) (m base : Nat) :
-    Sem sim m ([] : List (Ind G α)) (empty m base : HoF G α) :=
-  ⟨List.Pairwise.nil, by simp, by simp⟩
+/-- best of everything seen -/
+def Best (sim : Ind G α → Ind G α → Bool) (m : Nat) (seen : List (Ind G α)) (h : HoF G α) : Prop :=
+  ∀ x ∈ seen, Repr sim h x ∨
+    (h.items.length = m ∧ ∀ w, h.items.getLast? = some w → x.fit.wvalues ≤ w.fit.wvalues)
 
 variable {sim : Ind G α → Ind G α → Bool} {U : List (Ind G α)}
 
-theorem sim_copy_left (hh : SimHyp sim U) (o : Nat) (x y : Ind G α) : sim (copyInd o x) y = sim x y :=
+theorem sim_copy_left (hh : SimSym sim) (o : Nat) (x y : Ind G α) : sim (copyInd o x) y = sim x y :=
   hh.same _ _ _ _ (same_copy o x) (same_refl y)
 
-theorem sim_copy_right (hh : SimHyp sim U) (o : Nat) (x y : Ind G α) : sim y (copyInd o x) = sim y x :=
+theorem sim_copy_right (hh : SimSym sim) (o : Nat) (x y : Ind G α) : sim y (copyInd o x) = sim y x :=
   hh.same _ _ _ _ (same_refl y) (same_copy o x)
 
-theorem repr_insert (hh : SimHyp sim U) (h : HoF G α) (ind : Ind G α) : Repr sim (insert h ind) ind :=
-  ⟨copyInd h.next ind, (mem_insert _ _ _).2 (Or.inl rfl), by rw [sim_copy_right hh, hh.refl]⟩
+theorem repr_insert (hh : SimBase sim) (h : HoF G α) (ind : Ind G α) : Repr sim (insert h ind) ind :=
+  ⟨copyInd h.next ind, (mem_insert _ _ _).2 (Or.inl rfl), by rw [sim_copy_right hh.toSimSym, hh.refl]⟩
 
 theorem repr_insert_of (h : HoF G α) (ind x : Ind G α) (hx : Repr sim h x) : Repr sim (insert h ind) x := by
   obtain ⟨it, hit, e⟩ := hx
   exact ⟨it, (mem_insert _ _ _).2 (Or.inr hit), e⟩
 
 /-- A list of `seen`-originals of the members, pairwise dissimilar and dissimilar to `ind`. -/
-theorem exists_originals (hh : SimHyp sim U) (seen : List (Ind G α)) (ind : Ind G α) (l : List (Ind G α))
+theorem exists_originals (hh : SimSym sim) (seen : List (Ind G α)) (ind : Ind G α) (l : List (Ind G α))
     (ho : ∀ it ∈ l, ∃ x ∈ seen, same it x) (hp : Dissim sim l) (hi : ∀ it ∈ l, sim ind it = false) :
     ∃ os : List (Ind G α), os.length = l.length ∧ (∀ o ∈ os, o ∈ seen) ∧ Dissim sim os ∧
       (∀ o ∈ os, sim ind o = false) ∧ ∀ o ∈ os, ∃ it ∈ l, same it o := by
@@ -132,7 +138,7 @@ theorem exists_originals (hh : SimHyp sim U) (seen : List (Ind G α)) (ind : Ind
 
 /-- If the archive is full and `ind` is dissimilar to every member, more than `m` distinct
 individuals exist. -/
-theorem no_room (hh : SimHyp sim U) {base m : Nat} {seen : List (Ind G α)} {h : HoF G α}
+theorem no_room (hh : SimSym sim) {base m : Nat} {seen : List (Ind G α)} {h : HoF G α}
     (hs : HStr base m seen h) (hd : Dissim sim h.items) (ind : Ind G α)
     (hfull : m ≤ h.items.length) (hns : ∀ hofer ∈ h.items, sim ind hofer = false) :
     ¬ Room sim m (seen ++ [ind]) := by
@@ -151,7 +157,7 @@ theorem room_mono {m : Nat} {seen : List (Ind G α)} (ind : Ind G α) (hr : Room
     Room sim m seen :=
   fun l hl hd => hr l (fun y hy => by simp [hl y hy]) hd
 
-theorem dissim_insert (hh : SimHyp sim U) (h : HoF G α) (ind : Ind G α) (hd : Dissim sim h.items)
+theorem dissim_insert (hh : SimSym sim) (h : HoF G α) (ind : Ind G α) (hd : Dissim sim h.items)
     (hns : ∀ hofer ∈ h.items, sim ind hofer = false) : Dissim sim (insert h ind).items := by
   rw [insert_items]
   apply pairwise_insertAt _ _ _ hd
@@ -163,99 +169,130 @@ theorem dissim_insert (hh : SimHyp sim U) (h : HoF G α) (ind : Ind G α) (hd : 
   · intro x hx
     rw [sim_copy_left hh]; exact hns x hx
 
-theorem step_sem (hh : SimHyp sim U) (p0 ind : Ind G α) {base m : Nat}
-    {seen : List (Ind G α)} {h h' : HoF G α} (hs : HStr base m seen h) (hsem : Sem sim m seen h)
-    (hm : 1 ≤ m) (hp : h.items = [] → p0 = ind) (hU : ∀ x ∈ seen ++ [ind], x ∈ U)
-    (e : step sim p0 h ind = some h') : Sem sim m (seen ++ [ind]) h' := by
+/-- Pairwise dissimilarity of the members survives an iteration — needs only a symmetric,
+identity-blind similarity. -/
+theorem step_dissim (hh : SimSym sim) (p0 ind : Ind G α) {base m : Nat}
+    {seen : List (Ind G α)} {h h' : HoF G α} (hs : HStr base m seen h) (hd : Dissim sim h.items)
+    (hm : 1 ≤ m) (hp : h.items = [] → p0 = ind)
+    (e : step sim p0 h ind = some h') : Dissim sim h'.items := by
+  have hmm : 1 ≤ h.maxsize := by rw [hs.msz]; exact hm
+  rcases step_cases sim p0 ind h hmm hp with ⟨he, e'⟩ | ⟨ys, w, hys, hc⟩
+  · rw [e'] at e; cases e
+    exact dissim_insert hh h ind hd (by simp [he])
+  · rcases hc with ⟨e', _, _⟩ | ⟨e', _⟩ | ⟨e', _, hns⟩ | ⟨e', _, _, hns⟩
+    · rw [e'] at e; cases e; exact hd
+    · rw [e'] at e; cases e; exact hd
+    · rw [e'] at e; cases e; exact dissim_insert hh h ind hd hns
+    · rw [e'] at e; cases e
+      have hyi : (erased h (h.items.length - 1)).items = ys := erased_last_items h ys w hys
+      have hd' := hd
+      rw [hys] at hd'
+      simp only [Dissim, List.pairwise_append] at hd'
+      apply dissim_insert hh
+      · rw [hyi]; exact hd'.1
+      · rw [hyi]; exact fun y hy => hns y (by rw [hys]; simp [hy])
+
+/-- While room, everything seen stays represented — needs a reflexive, symmetric, identity-blind similarity. -/
+theorem step_semk (hh : SimBase sim) (p0 ind : Ind G α) {base m : Nat}
+    {seen : List (Ind G α)} {h h' : HoF G α} (hs : HStr base m seen h) (hsem : SemK sim m seen h)
+    (hm : 1 ≤ m) (hp : h.items = [] → p0 = ind)
+    (e : step sim p0 h ind = some h') : SemK sim m (seen ++ [ind]) h' := by
+  refine ⟨step_dissim hh.toSimSym p0 ind hs hsem.dissim hm hp e, ?_⟩
   have hmm : 1 ≤ h.maxsize := by rw [hs.msz]; exact hm
   have hsz := hs.size
   have hmsz := hs.msz
   rcases step_cases sim p0 ind h hmm hp with ⟨he, e'⟩ | ⟨ys, w, hys, hc⟩
-  · -- empty archive: insert
-    rw [e'] at e; cases e
-    refine ⟨dissim_insert hh h ind hsem.dissim (by simp [he]), ?_, ?_⟩
-    · intro x hx
+  · rw [e'] at e; cases e
+    intro hr x hx
+    rw [List.mem_append, List.mem_singleton] at hx
+    rcases hx with hx | rfl
+    · obtain ⟨it, hit, _⟩ := hsem.kept (room_mono ind hr) x hx
+      rw [he] at hit; simp at hit
+    · exact repr_insert hh h x
+  · rcases hc with ⟨e', hgt, hge⟩ | ⟨e', hsim⟩ | ⟨e', hlt, hns⟩ | ⟨e', hge, hgt, hns⟩
+    · rw [e'] at e; cases e
+      intro hr x hx
       rw [List.mem_append, List.mem_singleton] at hx
       rcases hx with hx | rfl
-      · rcases hsem.best x hx with ⟨it, hit, _⟩ | ⟨hl, _⟩
-        · rw [he] at hit; simp at hit
-        · rw [he] at hl; simp at hl; omega
-      · exact Or.inl (repr_insert hh h x)
-    · intro hr x hx
+      · exact hsem.kept (room_mono _ hr) x hx
+      · by_cases hrep : ∃ it ∈ h.items, sim x it = true
+        · exact hrep
+        · exfalso
+          refine no_room hh.toSimSym hs hsem.dissim x (by omega) ?_ hr
+          intro hofer hh'
+          cases hq : sim x hofer with
+          | false => rfl
+          | true => exact absurd ⟨hofer, hh', hq⟩ hrep
+    · rw [e'] at e; cases e
+      intro hr x hx
       rw [List.mem_append, List.mem_singleton] at hx
       rcases hx with hx | rfl
-      · obtain ⟨it, hit, _⟩ := hsem.kept (room_mono ind hr) x hx
-        rw [he] at hit; simp at hit
+      · exact hsem.kept (room_mono _ hr) x hx
+      · exact hsim
+    · rw [e'] at e; cases e
+      intro hr x hx
+      rw [List.mem_append, List.mem_singleton] at hx
+      rcases hx with hx | rfl
+      · exact repr_insert_of h ind x (hsem.kept (room_mono _ hr) x hx)
       · exact repr_insert hh h x
+    · rw [e'] at e; cases e
+      intro hr
+      exact absurd hr (no_room hh.toSimSym hs hsem.dissim ind (by omega) hns)
+
+/-- Best of everything seen survives an iteration — the only clause that needs "similar ⇒ equal fitness". -/
+theorem step_best (hh : SimHyp sim U) (p0 ind : Ind G α) {base m : Nat}
+    {seen : List (Ind G α)} {h h' : HoF G α} (hs : HStr base m seen h) (hbest : Best sim m seen h)
+    (hm : 1 ≤ m) (hp : h.items = [] → p0 = ind) (hU : ∀ x ∈ seen ++ [ind], x ∈ U)
+    (e : step sim p0 h ind = some h') : Best sim m (seen ++ [ind]) h' := by
+  have hmm : 1 ≤ h.maxsize := by rw [hs.msz]; exact hm
+  have hsz := hs.size
+  have hmsz := hs.msz
+  have hb := hh.toSimBase
+  rcases step_cases sim p0 ind h hmm hp with ⟨he, e'⟩ | ⟨ys, w, hys, hc⟩
+  · rw [e'] at e; cases e
+    intro x hx
+    rw [List.mem_append, List.mem_singleton] at hx
+    rcases hx with hx | rfl
+    · rcases hbest x hx with ⟨it, hit, _⟩ | ⟨hl, _⟩
+      · rw [he] at hit; simp at hit
+      · rw [he] at hl; simp at hl; omega
+    · exact Or.inl (repr_insert hb h x)
   · have hlast : h.items.getLast? = some w := by rw [hys]; simp
     rcases hc with ⟨e', hgt, hge⟩ | ⟨e', hsim⟩ | ⟨e', hlt, hns⟩ | ⟨e', hge, hgt, hns⟩
-    · -- not admitted
-      rw [e'] at e; cases e
-      refine ⟨hsem.dissim, ?_, ?_⟩
-      · intro x hx
-        rw [List.mem_append, List.mem_singleton] at hx
-        rcases hx with hx | rfl
-        · exact hsem.best x hx
-        · right
-          refine ⟨by omega, ?_⟩
-          intro w' hw'
-          rw [hlast] at hw'; cases hw'
-          exact (gt_false_iff _ _).1 hgt
-      · intro hr x hx
-        rw [List.mem_append, List.mem_singleton] at hx
-        rcases hx with hx | rfl
-        · exact hsem.kept (room_mono _ hr) x hx
-        · by_cases hrep : ∃ it ∈ h.items, sim x it = true
-          · exact hrep
-          · exfalso
-            refine no_room hh hs hsem.dissim x (by omega) ?_ hr
-            intro hofer hh'
-            cases hq : sim x hofer with
-            | false => rfl
-            | true => exact absurd ⟨hofer, hh', hq⟩ hrep
-    · -- a similar member exists
-      rw [e'] at e; cases e
-      refine ⟨hsem.dissim, ?_, ?_⟩
-      · intro x hx
-        rw [List.mem_append, List.mem_singleton] at hx
-        rcases hx with hx | rfl
-        · exact hsem.best x hx
-        · exact Or.inl hsim
-      · intro hr x hx
-        rw [List.mem_append, List.mem_singleton] at hx
-        rcases hx with hx | rfl
-        · exact hsem.kept (room_mono _ hr) x hx
-        · exact hsim
-    · -- room: insert
-      rw [e'] at e; cases e
-      refine ⟨dissim_insert hh h ind hsem.dissim hns, ?_, ?_⟩
-      · intro x hx
-        rw [List.mem_append, List.mem_singleton] at hx
-        rcases hx with hx | rfl
-        · rcases hsem.best x hx with hr | ⟨hl, _⟩
-          · exact Or.inl (repr_insert_of h ind x hr)
-          · omega
-        · exact Or.inl (repr_insert hh h x)
-      · intro hr x hx
-        rw [List.mem_append, List.mem_singleton] at hx
-        rcases hx with hx | rfl
-        · exact repr_insert_of h ind x (hsem.kept (room_mono _ hr) x hx)
-        · exact repr_insert hh h x
-    · -- evict the worst, insert
-      rw [e'] at e; cases e
+    · rw [e'] at e; cases e
+      intro x hx
+      rw [List.mem_append, List.mem_singleton] at hx
+      rcases hx with hx | rfl
+      · exact hbest x hx
+      · right
+        refine ⟨by omega, ?_⟩
+        intro w' hw'
+        rw [hlast] at hw'; cases hw'
+        exact (gt_false_iff _ _).1 hgt
+    · rw [e'] at e; cases e
+      intro x hx
+      rw [List.mem_append, List.mem_singleton] at hx
+      rcases hx with hx | rfl
+      · exact hbest x hx
+      · exact Or.inl hsim
+    · rw [e'] at e; cases e
+      intro x hx
+      rw [List.mem_append, List.mem_singleton] at hx
+      rcases hx with hx | rfl
+      · rcases hbest x hx with hr | ⟨hl, _⟩
+        · exact Or.inl (repr_insert_of h ind x hr)
+        · omega
+      · exact Or.inl (repr_insert hb h x)
+    · rw [e'] at e; cases e
       have hne : h.items ≠ [] := by rw [hys]; simp
       have hl : h.items.length - 1 < h.items.length := by
         have := List.length_pos_iff.2 hne; omega
       have hyi : (erased h (h.items.length - 1)).items = ys := erased_last_items h ys w hys
-      have hd := hsem.dissim
       have hsorted := hs.toStr.sorted
-      rw [hys] at hd hsorted
-      simp only [Dissim, List.pairwise_append] at hd
+      rw [hys] at hsorted
       rw [List.pairwise_append] at hsorted
       have hwle : ∀ y ∈ ys, w.fit.wvalues ≤ y.fit.wvalues := fun y hy => hsorted.2.2 y hy w (by simp)
       have hgt' : w.fit.wvalues < ind.fit.wvalues := (gt_iff _ _).1 hgt
-      have hysub : ∀ y ∈ ys, y ∈ h.items := fun y hy => by rw [hys]; simp [hy]
-      -- the new worst member is at least as good as the old one
       have hworst : ∀ w', (insert (erased h (h.items.length - 1)) ind).items.getLast? = some w' →
           w.fit.wvalues ≤ w'.fit.wvalues := by
         intro w' hw'
@@ -266,31 +303,25 @@ theorem step_sem (hh : SimHyp sim U) (p0 ind : Ind G α) {base m : Nat}
         · exact hwle w' hmem
       have hlen' : (insert (erased h (h.items.length - 1)) ind).items.length = m := by
         rw [length_insert, length_erased _ _ hl]; omega
-      refine ⟨?_, ?_, ?_⟩
-      · apply dissim_insert hh
-        · rw [hyi]; exact hd.1
-        · rw [hyi]; exact fun y hy => hns y (hysub y hy)
-      · intro x hx
-        rw [List.mem_append, List.mem_singleton] at hx
-        rcases hx with hx | rfl
-        · have hxw : (∃ it ∈ ys, sim x it = true) ∨ x.fit.wvalues ≤ w.fit.wvalues := by
-            rcases hsem.best x hx with ⟨it, hit, hsi⟩ | ⟨_, hle⟩
-            · rw [hys, List.mem_append, List.mem_singleton] at hit
-              rcases hit with hit | rfl
-              · exact Or.inl ⟨it, hit, hsi⟩
-              · right
-                obtain ⟨y, hy, sy⟩ := hs.origin it (by rw [hys]; simp)
-                have : sim x y = true := by rw [← hh.same x x it y (same_refl x) sy]; exact hsi
-                have hf := hh.fit x (hU x (by simp [hx])) y (hU y (by simp [hy])) this
-                rw [hf, ← sy.2]
-            · exact Or.inr (hle w hlast)
-          rcases hxw with ⟨it, hit, hsi⟩ | hle
-          · left
-            exact ⟨it, (mem_insert _ _ _).2 (Or.inr (by rw [hyi]; exact hit)), hsi⟩
-          · right
-            exact ⟨hlen', fun w' hw' => le_trans hle (hworst w' hw')⟩
-        · exact Or.inl (repr_insert hh _ x)
-      · intro hr
-        exact absurd hr (no_room hh hs hsem.dissim ind (by omega) hns)
+      intro x hx
+      rw [List.mem_append, List.mem_singleton] at hx
+      rcases hx with hx | rfl
+      · have hxw : (∃ it ∈ ys, sim x it = true) ∨ x.fit.wvalues ≤ w.fit.wvalues := by
+          rcases hbest x hx with ⟨it, hit, hsi⟩ | ⟨_, hle⟩
+          · rw [hys, List.mem_append, List.mem_singleton] at hit
+            rcases hit with hit | rfl
+            · exact Or.inl ⟨it, hit, hsi⟩
+            · right
+              obtain ⟨y, hy, sy⟩ := hs.origin it (by rw [hys]; simp)
+              have : sim x y = true := by rw [← hh.same x x it y (same_refl x) sy]; exact hsi
+              have hf := hh.fit x (hU x (by simp [hx])) y (hU y (by simp [hy])) this
+              rw [hf, ← sy.2]
+          · exact Or.inr (hle w hlast)
+        rcases hxw with ⟨it, hit, hsi⟩ | hle
+        · left
+          exact ⟨it, (mem_insert _ _ _).2 (Or.inr (by rw [hyi]; exact hit)), hsi⟩
+        · right
+          exact ⟨hlen', fun w' hw' => le_trans hle (hworst w' hw')⟩
+      · exact Or.inl (repr_insert hb _ x)
 
 end C08L
